@@ -31,7 +31,12 @@ EXPLANATION = (
     'input is densified with an ndarray (never bare np.matrix) and outputs are '
     're-wrapped in the input container; (D6) the stationary vector is the '
     'sum-normalised leading left eigenvector under a descending-real-part '
-    'order applied to values and columns alike. Stochasticity/stationarity/'
+    'order applied to values and columns alike; (D5, scipy transfer table) the '
+    'counts-with-prior are never the np.matrix of `sparse + ndarray`, no '
+    'container-dependent operation (axis-less .sum(): bsr; `/ int`: lil, dok) is '
+    'applied to a matrix still in the caller\'s container, and the sparse row '
+    'sums are not formed in the float32 that asfptype() gives small integer '
+    'dtypes. Stochasticity/stationarity/'
     'detailed balance as numerical identities are not decided.')
 
 PRIOR = 'PRIOR__'        # symbol for _apply_prior_counts(C, prior_counts)
@@ -70,6 +75,88 @@ def _pops(o, rule, p, calc, sigs, e2, forms, scope, ok_text, bad_text, construct
         return o.missing(rule, 'the path tests `%s` in an unfamiliar form; cannot tell whether populations were asked for' % calc)
     v = sclassify(e2, forms, scope, sigs)
     return o.decide(v, rule, e2, ok_text, bad_text, construct=construct if v[0] == 'match' else None)
+
+
+# ---------------------------------------------------------------------------
+# container provenance of `counts + prior`
+#
+# scipy transfer facts used (scipy.sparse._base / _data, all *_matrix classes):
+#   spmatrix + python/numpy scalar (non-zero)  raises NotImplementedError
+#   spmatrix + ndarray                          is an np.matrix
+#   spmatrix + spmatrix                         is an spmatrix
+#   ndarray  + scalar / ndarray                 is an ndarray
+# np.matrix is neither the container that was passed in nor the ndarray that
+# "adding prior counts to a sparse matrix legitimately densifies it" promises:
+# `*` is the matrix product on it, axis sums stay 2-D, x[i] is a 1 x n matrix
+# (the Prinz iteration stores matrices into cells and raises ValueError).
+
+_MATRIX_T = ('np.matrix', 'numpy.matrix')
+
+
+def _is_matrix_test(e, of=None):
+    """`e` is isinstance(<x>, np.matrix) (for x == `of`, if given)."""
+    if not (isinstance(e, ast.Call) and call_name(e) == 'isinstance' and len(e.args) == 2 and not e.keywords):
+        return False
+    t = e.args[1]
+    ts = t.elts if isinstance(t, ast.Tuple) else [t]
+    if not all(u(x) in _MATRIX_T for x in ts):
+        return False
+    return of is None or u(e.args[0]) == u(of)
+
+
+def _matrix_excluded(p, v):
+    """Polarity of a path condition isinstance(<v>, np.matrix) (None: untested)."""
+    for k, (pol, node) in p.conds.items():
+        if k[0] != 'raises' and _is_matrix_test(node, v):
+            return pol
+    return None
+
+
+def _sum_operands(v):
+    if isinstance(v, ast.BinOp) and isinstance(v.op, ast.Add):
+        return [v.left, v.right]
+    if isinstance(v, ast.Call) and call_name(v) in ('np.add', 'numpy.add') and len(v.args) == 2 and not v.keywords:
+        return list(v.args)
+    return None
+
+
+def _prior_value_kind(p, C):
+    """Container of the value a path of _apply_prior_counts returns:
+    'same' (the argument itself), 'ndarray' (base ndarray by construction, or
+    a sum that the path has tested not to be an np.matrix), 'matrix?' (sum of
+    the bare, possibly sparse, argument: np.matrix for sparse counts and an
+    array-valued prior), None (not recognised)."""
+    v = p.value
+    if isinstance(v, ast.Name) and v.id == C:
+        return 'same'
+    if _ensures_ndarray(v):
+        return 'ndarray'
+    ops = _sum_operands(v)
+    if ops is None:
+        return None
+    if any(_ensures_ndarray(x) for x in ops):
+        return 'ndarray'
+    if any(_counts_of(x, C) for x in ops):
+        return 'ndarray' if _matrix_excluded(p, v) is False else 'matrix?'
+    return None
+
+
+def _prior_container(o, p, C, pc):
+    """The counts-with-prior handed to the builders are an ndarray or a sparse
+    matrix on every path - never the np.matrix scipy makes of
+    `sparse matrix + ndarray`."""
+    rule = 'C04.D5.container.prior-no-matrix'
+    kind = _prior_value_kind(p, C)
+    if kind is None:
+        return                      # content of the sum is decided by C04.D1.prior-first.add
+    o.check(kind != 'matrix?', rule, p.value,
+            'the sum with the prior is an ndarray by construction (or tested not to be an np.matrix)',
+            '_apply_prior_counts returns the bare sum of the (possibly sparse) counts and the prior: for a scipy sparse matrix and an '
+            'array-valued prior (documented: "int or array, shape=(n_states, n_states)") scipy returns an np.matrix, which mle passes '
+            'to the Prinz iteration (issparse is False: no densification; X[i, i] = <1x1 matrix> raises ValueError) and which '
+            'normalize/transpose hand back as the counts; convert it (np.asarray) or densify the counts before adding',
+            construct='prior given: counts + prior as ndarray' if kind != 'matrix?' else
+            'prior given: bare sum of the possibly sparse counts and the prior (np.matrix for sparse + array)')
 
 
 # ---------------------------------------------------------------------------
@@ -130,19 +217,19 @@ def d1_apply_prior(ck, mod, sigs):
     paths = paths_or_missing(ck, rule, mod, fa, F)
     n_add = n_id = 0
     added = ['%s + %s' % (C, pc), '%s + %s' % (pc, C), 'np.add(%s, %s)' % (C, pc)]
-    # (wrapping the sum into an ndarray only turns the np.matrix of `sparse + array` into an ndarray)
-    added += ['np.asarray(%s + %s)' % (C, pc), 'np.array(%s + %s)' % (C, pc)]
     for d in ('np.array(%s.todense())', 'np.asarray(%s.todense())', '%s.toarray()', '%s.todense().A', '%s.A',
               'np.asarray(%s.toarray())', 'np.array(%s.toarray())'):
         added += ['%s + %s' % (d % C, pc), '%s + %s' % (pc, d % C)]
+    # (wrapping the sum into an ndarray only turns the np.matrix of `sparse + array` into an ndarray)
+    added += [w % a for a in list(added) for w in ('np.asarray(%s)', 'np.array(%s)')]
     for p in (paths or []):
         if p.kind != 'return':
             continue
         v = p.value
         none = p.pol(['%s is None' % pc], sigs)
-        tests_pc = any(_names(e, pc) for e in p.exprs()[1:])
+        tests_pc = any(_names(e, pc) for e in p.exprs()[1:] if not _is_matrix_test(e))
         if none is None and tests_pc:
-            g = [e for e in p.exprs()[1:] if _names(e, pc)]
+            g = [e for e in p.exprs()[1:] if _names(e, pc) and not _is_matrix_test(e)]
             if all(closed_over(e, {pc}) for e in g):
                 # a different pure test of the prior alone (truthiness, == 0 ...)
                 o.check(False, rule, g[0], '', 'prior must be applied iff it is not None: the guard `%s` is a different test of `%s` '
@@ -165,6 +252,7 @@ def d1_apply_prior(ck, mod, sigs):
         o.decide(sclassify(v, added, {C, pc}, sigs), rule, v, 'C + prior_counts builds a new matrix',
                  '_apply_prior_counts must return C + prior_counts (a new object) whenever a prior is given',
                  construct='%s is not None -> %s' % (pc, u(v)[:120]))
+        _prior_container(o, p, C, pc)
     if paths is not None:
         ck.floor(rule, n_add, 1, 'path adding the prior counts')
         ck.floor(rule, n_id, 1, 'path for prior_counts=None')
@@ -246,22 +334,11 @@ def _matrix_may_reach(ck, mod, sigs):
     for p in paths:
         if p.kind != 'return':
             continue
-        v = p.value
-        if (isinstance(v, ast.Name) and v.id == C) or _ensures_ndarray(v):
-            continue
-        ops = None
-        if isinstance(v, ast.BinOp) and isinstance(v.op, ast.Add):
-            ops = [v.left, v.right]
-        elif isinstance(v, ast.Call) and call_name(v) in ('np.add', 'numpy.add') and len(v.args) == 2 and not v.keywords:
-            ops = list(v.args)
-        if ops is None:
+        kind = _prior_value_kind(p, C)
+        if kind is None:
             return None
-        if any(_ensures_ndarray(x) for x in ops):
-            continue
-        if any(_counts_of(x, C) for x in ops):
+        if kind == 'matrix?':
             verdict = True
-        else:
-            return None
     return verdict
 
 
@@ -293,6 +370,51 @@ def _dense_ndarray(o, sigs, C, A, node, what):
                    'prior_counts is an np.matrix (scipy), for which %s only after the conversion; on np.matrix `*` is the MATRIX '
                    'product and axis sums stay 2-D, so T is no longer counts / row totals' % what,
                    construct='dense: `%s` used without ndarray conversion' % u(A)[:60])
+
+
+_F64 = ('float', 'np.float64', 'np.float_', 'np.double', "'float'", "'float64'", "'d'", "'f8'")
+
+
+def _sum_precision(node, C):
+    """Floating type in which the row sums of the SPARSE counts are formed,
+    read off the conversion chain between the parameter and `.sum(axis=1)`
+    (outermost conversion first):
+      'float64'  an explicit cast to double decides (.astype(np.float64), dtype=float)
+      'fptype'   the counts go through .asfptype() and no cast to double follows:
+                 scipy upcasts int8/uint8/int16/uint16/bool to float32 ONLY, so the
+                 sums and 1/sum carry single precision
+      'native'   no floating conversion: integer counts are summed exactly (scipy
+                 widens the accumulator) and 1.0/sum is a double
+      None       the chain does not end at the parameter."""
+    seen_fp = False
+    while True:
+        if isinstance(node, ast.Call) and isinstance(node.func, ast.Attribute) and not node.args and not node.keywords and \
+                node.func.attr in ('tocsr', 'tocsc', 'tocoo', 'tolil', 'copy'):
+            node = node.func.value
+        elif isinstance(node, ast.Call) and isinstance(node.func, ast.Attribute) and node.func.attr == 'asfptype' and \
+                not node.args and not node.keywords:
+            seen_fp = True
+            node = node.func.value
+        elif isinstance(node, ast.Call) and isinstance(node.func, ast.Attribute) and node.func.attr == 'astype' and \
+                len(node.args) + len(node.keywords) >= 1:
+            t = u((node.args + [k.value for k in node.keywords if k.arg == 'dtype'] + [None])[0]) if (
+                node.args or any(k.arg == 'dtype' for k in node.keywords)) else None
+            if t in _F64:
+                return 'float64'    # (a later .asfptype() leaves a double a double)
+            return None             # a cast to some other type: not modelled
+        elif isinstance(node, ast.Call) and (call_name(node) or '').split('.')[-1] in (
+                'csr_matrix', 'csc_matrix', 'coo_matrix', 'lil_matrix') and \
+                len(node.args) + sum(1 for k in node.keywords if k.arg == 'arg1') == 1:
+            dt = [k.value for k in node.keywords if k.arg == 'dtype']
+            if any(k.arg not in ('arg1', 'dtype', 'copy') for k in node.keywords):
+                return None
+            if dt:
+                return 'float64' if u(dt[0]) in _F64 else None
+            node = (node.args + [k.value for k in node.keywords if k.arg == 'arg1'])[0]
+        elif isinstance(node, ast.Name) and node.id == C:
+            return 'fptype' if seen_fp else 'native'
+        else:
+            return None
 
 
 def _inv_weights(o, sigs, C, label, IW, dense):
@@ -334,6 +456,20 @@ def _inv_weights(o, sigs, C, label, IW, dense):
     if v[0] == 'match' and dense and smatch(flat, W, sigs) is None and _counts_of(v[1]['_A'], C):
         # 1-D only if the summed object is a base ndarray (np.matrix sums stay 2-D)
         _dense_ndarray(o, sigs, C, v[1]['_A'], W, 'the row sums `%s` are 1-D' % u(W)[:60])
+    if v[0] == 'match' and not dense and _counts_of(v[1]['_A'], C):
+        # dtype provenance of the sums: the dense sibling sums the integers exactly and divides in double
+        prec = _sum_precision(v[1]['_A'], C)
+        rule5 = 'C04.D3.row-orientation.sparse-precision'
+        if prec is None:
+            o.missing(rule5, 'conversion chain of the summed sparse counts not recognised: %s' % u(v[1]['_A'])[:100])
+        else:
+            o.check(prec != 'fptype', rule5, W, 'sparse branch: row sums formed in double precision (or exactly, in integers)',
+                    'sparse branch: the counts are converted with .asfptype() before the row sums are taken; scipy upcasts '
+                    'int8/uint8/int16/uint16 (and bool) counts to float32 only, so weights and 1/weights carry single precision: '
+                    'rows of T sum to 1 only to ~1e-8 and T differs from the dense result (which sums integers exactly and divides '
+                    'in float64); cast explicitly: .astype(np.float64)',
+                    construct='sparse: row sums in float64' if prec != 'fptype' else
+                    'sparse: row sums of the counts converted with asfptype() (float32 for small integer dtypes)')
     if v[0] == 'match' and not _counts_of(v[1]['_A'], C):
         v = ('near' if closed_over(v[1]['_A'], {C}) else 'far', 1, 'row sums of %s' % C)
     o.decide(v, rule3, W, 'weights are ROW sums (axis=1) of the counts',
@@ -460,6 +596,74 @@ def _container(o, p, sigs, elt, inner, what):
     return o.decide(sclassify(elt, [inner, '_recast(%s, %s)' % (PRIOR, inner)], {PRIOR, inner}, sigs), rule, elt, '', msg)
 
 
+# Operations whose result depends on WHICH of the eight containers holds the
+# numbers (scipy.sparse transfer facts; ndarray, csr, csc, coo, dia behave alike):
+#   X.sum() without axis   bsr_matrix: the (n_blocks, R, C) block array is wrapped into
+#                          np.matrix -> ValueError as soon as there are >= 2 blocks
+#                          larger than 1 x 1 (scipy picks 4x4 blocks for a full 8x8 matrix)
+#   X / <integer literal>  lil_matrix, dok_matrix: the quotient keeps the integer dtype of
+#                          X (result_type(X, 2) is X.dtype), i.e. FLOOR division; every
+#                          other container returns float64.  X / 2.0, X * 0.5 are uniform.
+# "The numbers are the same for dense input and every supported sparse format" needs
+# every operation applied to a value that is still in the caller's container to be
+# defined alike for all of them.
+_CONTAINER_SYMS = (PRIOR, 'SYM__', 'PROBS__')
+_CONTAINER_CALLS = ('_recast', '_apply_prior_counts', '_row_normalize')
+
+
+def _in_input_container(e):
+    """`e` is a matrix in the container type of the builder's input (or of a
+    sum of such): the counts with prior, their transpose / symmetrisation, the
+    normalised matrix, type(C)(...) of anything."""
+    if isinstance(e, ast.Name):
+        return e.id in _CONTAINER_SYMS
+    if isinstance(e, ast.Attribute) and e.attr == 'T':
+        return _in_input_container(e.value)
+    if isinstance(e, ast.Call) and isinstance(e.func, ast.Attribute) and e.func.attr in ('transpose', 'copy') and not e.args:
+        return _in_input_container(e.func.value)
+    if isinstance(e, ast.Call) and isinstance(e.func, ast.Name) and e.func.id in _CONTAINER_CALLS:
+        return True
+    if isinstance(e, ast.BinOp) and isinstance(e.op, (ast.Add, ast.Sub)):
+        return _in_input_container(e.left) and _in_input_container(e.right)
+    return False
+
+
+def _role(e):
+    t = u(e)
+    return ('the symmetrised counts' if 'SYM__' in t else 'the normalised matrix' if 'PROBS__' in t or '_row_normalize' in t
+            else 'the counts')
+
+
+def _uniform_ops(o, F, exprs):
+    """No container-dependent operation on a value in the input's container
+    inside the returned expressions."""
+    rule = 'C04.D5.container.uniform-ops'
+    n_bad = 0
+    for e in exprs:
+        for x in ast.walk(e):
+            if isinstance(x, ast.Call) and isinstance(x.func, ast.Attribute) and x.func.attr == 'sum' and not x.args and \
+                    not any(k.arg == 'axis' and not _is_none(k.value) for k in x.keywords) and _in_input_container(x.func.value):
+                n_bad += 1
+                o.check(False, rule + '.sum', x, '',
+                        '%s: total of %s taken with the axis-less .sum() of the matrix while it is still in the caller\'s container: '
+                        'bsr_matrix.sum() raises ValueError("shape too large to be a matrix") for two or more blocks larger than 1x1 '
+                        '(e.g. any fully populated 8x8 count matrix); take the total from the row sums (row_sums.sum()) instead'
+                        % (F, _role(x.func.value)),
+                        construct='%s: axis-less .sum() of %s in the input container' % (F, _role(x.func.value)))
+            if isinstance(x, ast.BinOp) and isinstance(x.op, ast.Div) and isinstance(x.right, ast.Constant) and \
+                    isinstance(x.right.value, int) and not isinstance(x.right.value, bool) and _in_input_container(x.left):
+                n_bad += 1
+                o.check(False, rule + '.truediv', x, '',
+                        '%s: %s are divided by the INTEGER literal %r while still in the caller\'s container: lil_matrix and dok_matrix '
+                        'keep the integer dtype of the counts under `/ int` (floor division: every odd C_ij + C_ji loses its half, 0.5 '
+                        'entries vanish) whereas ndarray and the other formats return float64; multiply by 0.5 or divide by %r.0'
+                        % (F, _role(x.left), x.right.value, x.right.value),
+                        construct='%s: %s / integer literal in the input container' % (F, _role(x.left)))
+    if not n_bad:
+        o.check(True, rule, None, 'every operation on a matrix in the caller\'s container is defined alike for all eight containers', '',
+                construct='%s: operations on values in the input container' % F)
+
+
 def d3_transpose(ck, mod, sigs):
     rule = 'C04.D3.transpose'
     fn, aps = builder_paths(ck, mod, 'transpose', sigs)
@@ -506,10 +710,15 @@ def d3_transpose(ck, mod, sigs):
                 # SYM__ = C + C.T is symmetric: its column sums ARE its row sums
                 forms.append(w % 'SYM__.sum(axis=0) / SYM__.sum()' + f)
         forms += ['(SYM__.sum(axis=1) / SYM__.sum()).A1', 'SYM__.sum(axis=1).A1 / SYM__.sum()']
+        # ... with the total taken from the row sums themselves
+        rows = [w % ('SYM__.sum(%s)' % a) + f for w in ('np.array(%s)', 'np.asarray(%s)', 'np.array(%s, dtype=float)', 'np.asarray(%s, dtype=float)')
+                for a in ('axis=1', '1', 'axis=0') for f in ('.flatten()', '.ravel()', '.reshape(-1)')] + ['SYM__.sum(axis=1).A1']
+        forms += ['%s / %s.sum()' % (r, r) for r in rows]
         _pops(o, rule + '.populations', p, calc, sigs, pops, forms, {'SYM__', PRIOR},
               'populations = row sums of the SAME symmetrised matrix / its total',
               'populations must be C_sym.sum(axis=1) / C_sym.sum() of the matrix that was normalised '
               '(row sums; detailed balance with the returned T depends on it)', 'populations = rowsum(C_sym) / sum(C_sym)')
+        _uniform_ops(o, F, [e0, e1, pops])
     ck.floor(rule, n, 1, 'return path of transpose')
 
 
